@@ -16,7 +16,8 @@ import Refine.Model.Metric
       I <kind> <node> <hasinterp> <cont> STATE <ncall> { <status> STATE STATE <nev> EV* }* STATE
       B <new> <n0> <n1> <hasinterp> <cont> <status> <fresh> <c0> <p0> <c1> <p1> STATE STATE <nev> EV*
       STATE := x y z cell part b0..b3 m0..m5 l0..l5 ;  EV := P part seed | R enclosing seed part b0..b3 | T n
-    every other line (`N`, `done`, `ok`, `A`, `X`, `skip`, `bad-op`) is echoed as `ok <tag>`. -/
+      PA <0|1>   (the harness switched `ref_mpi_para` for the following records)
+    every other line (`N`, `done`, `ok`, `A`, `X`, `skip`, `bad-op`, `. <op>`) is echoed as `ok <tag>`. -/
 namespace Drivers.SmoothInterp
 open Drivers.Proto Refine Refine.Model.Matrix Refine.Model.SmoothInterp
 open Refine.Model.Geom (V3 B4)
@@ -335,6 +336,7 @@ def step (S : Sess) (line : String) : Sess × String :=
   | "C" :: rest => (S, ((checkC S).run rest).elim "bad C malformed" (·.1))
   | "I" :: rest => (S, ((checkI S).run rest).elim "bad I malformed" (·.1))
   | "B" :: rest => (S, ((checkB S).run rest).elim "bad B malformed" (·.1))
+  | "PA" :: v :: _ => ({ S with para := v == "1" }, "ok PA")
   | "X" :: _ => (S, "ok X")
   | w :: _ => (S, "ok " ++ w)
   | [] => (S, "ok")
